@@ -1,6 +1,15 @@
 /-
-  Helper lemmas for C11 (Model/StoreSem.lean): sequential runs, the zarr slice indexer for step one,
-  the normal form of an accepted region request, and the per-task write lemma.
+  Helper lemmas for C11 (Model/StoreSem.lean).  Core tactics only (omega, simp, induction).
+
+  * sequential runs and array updates: runTasks_ok, applyPairs_of_mem, applyPairs_of_not_mem
+  * zarr slice indexer for step one: chunkNItems_step_one_pos, mem_hitBlocks_step_one
+  * normal form of an accepted request: validate_single_ok, startOf_good, stopOf_good, good_normal
+  * one task under the hypotheses: axisTask_write, axisTask_good;  all tasks of one axis: good_axis, runAxis_good(_values)
+  * tasks never overlap: writeSlot_range, axisTask_write_range, axisTask_disjoint
+  * identity copy: copyTask_same, runCopy_same(_values);  stored chunks: chunksTouched_range/_disjoint
+  * n-D lifting: InProd, mem_cartesian, validate_each, ndTask_good, ndWritten_iff, runRegion_good(_values), declared_eq_blocks
+  * store: pairUp_*, buildJobs_accepted/_rejected, movedTo_retarget, finalMoves_other, jobs_good, storeOutcome_good/_rejected,
+    storeWorld_good/_rejected
 -/
 import CubedModel.Model.StoreSem
 namespace Cubed.StoreSem
@@ -895,8 +904,9 @@ theorem jobs_good (A : Arrays) (pairs : List Pair) (mv : Moves)
         obtain ⟨h0, hne⟩ := hpd d hdd
         rw [finalMoves_other A ps _ d (fun q hq _ => hne q (by simp [hq]))]
         exact h0
-      have hread : (A.lazy p.src && ((if A.lazy p.src = true then movedTo mv p.src else none)
-            != movedTo (finalMoves A ps mv) p.src)) = false := by
+      have hread : readOk A (finalMoves A ps mv) p.src (if A.lazy p.src = true then movedTo mv p.src else none)
+          = true := by
+        unfold readOk
         cases hl : A.lazy p.src with
         | false => simp
         | true =>
